@@ -227,11 +227,7 @@ func diffVectors(a, b vector, sameOrder bool) (string, string) {
 	}
 	for _, k := range sortedKeys(a.JS) {
 		if a.JS[k] != b.JS[k] {
-			comp := "generated JavaScript"
-			if strings.Contains(k, "es6=true") {
-				comp = "generated JavaScript (ES6)"
-			}
-			return comp, k + " " + firstDiff(a.JS[k], b.JS[k])
+			return "generated JavaScript", k + " " + firstDiff(a.JS[k], b.JS[k])
 		}
 	}
 	return "", ""
